@@ -238,6 +238,7 @@ impl Family for AsyncFam {
     fn m_no_sched_point(op: &GOp<AsOp>) -> Option<&'static str> {
         match op {
             GOp::IsFinished(_) => Some("no-scheduling-point-before:JoinHandle::is_finished"),
+            GOp::PollJoin(_) => Some("no-scheduling-point-before:JoinHandle::poll"),
             GOp::Detach(_) => Some("no-scheduling-point-before:drop(JoinHandle)"),
             _ => None,
         }
@@ -451,6 +452,31 @@ fn g(ops: &[AsOp]) -> Vec<GOp<AsOp>> {
 }
 
 pub fn program_set(set: &str) -> Vec<Program<AsyncFam>> {
+    if set == "handover" {
+        // a JoinHandle polled once by one task and awaited by another ("futures moved between
+        // tasks"): thread 1 = the child (kept unfinished until the first poller is done), thread 2 =
+        // the first poller, thread 3 / main = the task that finally awaits the handle
+        let g = |ops: &[AsOp]| -> Vec<GOp<AsOp>> { ops.iter().cloned().map(GOp::Op).collect() };
+        let mut out = Vec::new();
+        for child in [vec![AsOp::FlagWait(0)], vec![AsOp::FlagWait(0), AsOp::Yield]] {
+            // the first poller spawns the final awaiter after its poll
+            out.push(Program {
+                cfg: 2,
+                threads: vec![
+                    vec![GOp::Spawn(1), GOp::Spawn(2), GOp::Join(2), GOp::Op(AsOp::FlagSet(0)), GOp::Join(3)],
+                    g(&child),
+                    vec![GOp::PollJoin(1), GOp::Spawn(3)],
+                    vec![GOp::Join(1)],
+                ],
+            });
+            // main awaits the handle another task polled first
+            out.push(Program {
+                cfg: 2,
+                threads: vec![vec![GOp::Spawn(1), GOp::Spawn(2), GOp::Join(2), GOp::Op(AsOp::FlagSet(0)), GOp::Join(1)], g(&child), vec![GOp::PollJoin(1)]],
+            });
+        }
+        return out;
+    }
     if let Some(base) = set.strip_suffix("-alt") {
         // the same programs through spawn_local / AbortHandle::{abort, is_finished}
         return program_set(base).into_iter().filter(|p| p.threads.iter().flatten().any(|o| matches!(o, GOp::Abort(_) | GOp::IsFinished(_)))).collect();
